@@ -235,31 +235,16 @@ type c06Node struct {
 
 func c06GenNode(r *kit.Rand) c06Node {
 	nd := c06Node{tp: c06GenTopo(r)}
-	topo := nd.tp.topo
-	nd.maxRef = kit.Pick(r, []int{1, 1, 1, 2, 3})
-	nd.reserved = cpuset.NewCPUSet()
-	if r.Pct(40) {
-		b := cpuset.NewCPUSetBuilder()
-		for _, id := range topo.CPUDetails.CPUs().ToSlice() {
-			if r.Pct(12) {
-				b.Add(id)
-			}
-		}
-		nd.reserved = b.Result()
-	}
+	nd.maxRef = kit.Pick(r, []int{1, 1, 1, 1, 2, 2, 3, 4})
+	nd.reserved = c06GenReserved(r, nd.tp)
 	nd.memPerNode = int64(kit.Pick(r, []int{16, 64, 100, 1 << 20}))
-	for n := 0; n < topo.NumNodes; n++ {
-		nd.numaRes = append(nd.numaRes, NUMANodeResource{Node: n, Resources: corev1.ResourceList{
-			corev1.ResourceCPU:    *resource.NewMilliQuantity(int64(topo.CPUsPerNode())*1000, resource.DecimalSI),
-			corev1.ResourceMemory: *resource.NewQuantity(nd.memPerNode, resource.BinarySI),
-		}})
-	}
+	nd.numaRes = c06GenNUMARes(r, nd.tp, nd.reserved, nd.memPerNode)
 	nd.strategy = kit.Pick(r, c06Strategies)
 	return nd
 }
 
 func (nd c06Node) String() string {
-	return fmt.Sprintf("topo=%s maxRef=%d reserved=%s mem/node=%d strategy=%s", nd.tp, nd.maxRef, nd.reserved.String(), nd.memPerNode, nd.strategy)
+	return fmt.Sprintf("topo=%s maxRef=%d reserved=%s numa=%s strategy=%s", nd.tp, nd.maxRef, nd.reserved.String(), c06NUMAResStr(nd.numaRes), nd.strategy)
 }
 
 func (nd c06Node) copyNUMARes() []NUMANodeResource {
@@ -270,35 +255,12 @@ func (nd c06Node) copyNUMARes() []NUMANodeResource {
 	return out
 }
 
-// c06BuildTopo builds the CPUTopology of the given shape exactly as c06GenTopo does.
-func c06BuildTopo(t c06Topo) c06Topo {
-	b := NewCPUTopologyBuilder()
-	cores := t.sockets * t.nodesPerSocket * t.coresPerNode
-	coreID := 0
-	for s := 0; s < t.sockets; s++ {
-		for n := 0; n < t.nodesPerSocket; n++ {
-			nodeID := s*t.nodesPerSocket + n
-			for c := 0; c < t.coresPerNode; c++ {
-				for p := 0; p < t.threads; p++ {
-					cpuID := coreID*t.threads + p
-					if t.sparse {
-						cpuID = p*cores + coreID
-					}
-					b.AddCPUInfo(s, nodeID, coreID, cpuID)
-				}
-				coreID++
-			}
-		}
-	}
-	t.topo = b.Result()
-	return t
-}
-
 const c06NodeName = "n0"
 
 type c06World struct {
 	c    *kit.Case
 	nd   c06Node
+	name string // node name
 	tom  TopologyOptionsManager
 	rm   *resourceManager
 	node *corev1.Node
@@ -308,13 +270,18 @@ type c06World struct {
 
 func c06NewWorld(c *kit.Case, nd c06Node, tag string) *c06World {
 	tom := NewTopologyOptionsManager()
-	return &c06World{c: c, nd: nd, tom: tom, tag: tag, book: c06NewBook(),
-		rm:   &resourceManager{numaAllocateStrategy: nd.strategy, topologyOptionsManager: tom, nodeAllocations: map[string]*NodeAllocation{}},
-		node: &corev1.Node{ObjectMeta: metav1.ObjectMeta{Name: c06NodeName}}}
+	rm := &resourceManager{numaAllocateStrategy: nd.strategy, topologyOptionsManager: tom, nodeAllocations: map[string]*NodeAllocation{}}
+	return c06NewWorldOn(c, nd, tag, c06NodeName, rm, tom)
+}
+
+// c06NewWorldOn: another node of the same scheduler (same resourceManager and TopologyOptionsManager).
+func c06NewWorldOn(c *kit.Case, nd c06Node, tag, name string, rm *resourceManager, tom TopologyOptionsManager) *c06World {
+	return &c06World{c: c, nd: nd, name: name, tom: tom, rm: rm, tag: tag, book: c06NewBook(),
+		node: &corev1.Node{ObjectMeta: metav1.ObjectMeta{Name: name}}}
 }
 
 func (w *c06World) installTopology() {
-	w.tom.UpdateTopologyOptions(c06NodeName, func(o *TopologyOptions) {
+	w.tom.UpdateTopologyOptions(w.name, func(o *TopologyOptions) {
 		o.CPUTopology = w.nd.tp.topo
 		o.MaxRefCount = w.nd.maxRef
 		o.ReservedCPUs = w.nd.reserved
@@ -327,53 +294,73 @@ func (w *c06World) spec() c06LedgerSpec {
 }
 
 func (w *c06World) check(where string) {
-	c06CheckBook(w.c, w.rm, c06NodeName, w.spec(), w.book, w.tag+" "+where)
+	c06CheckBook(w.c, w.rm, w.name, w.spec(), w.book, w.tag+" "+where)
 }
 
-// allocate draws one request, runs the real Allocate, checks the result as the ledger unit does and, on
-// success, commits it with Update (as Reserve does) and books a deep copy.
+// allocate draws one request (cpuset, or 20% NUMA amounts only), runs the real Allocate, checks the result as
+// the ledger unit does and, on success, commits it with Update (as Reserve does) and books a deep copy.
 func (w *c06World) allocate(uid types.UID) bool {
-	c, r, topo := w.c, w.c.R, w.nd.tp.topo
+	c, r, tp, topo := w.c, w.c.R, w.nd.tp, w.nd.tp.topo
+	cpuBind := !r.Pct(20)
 	ncpu := r.Range(1, maxInt(1, topo.NumCPUs/3))
 	bind := kit.Pick(r, c06BindPolicies)
 	required := r.Pct(30) && (bind == schedulingconfig.CPUBindPolicyFullPCPUs || bind == schedulingconfig.CPUBindPolicySpreadByPCPUs)
 	excl := kit.Pick(r, c06ExclPolicies)
 	mem := int64(r.Range(0, int(minI64(w.nd.memPerNode, 48))))
-	opts := &ResourceOptions{
-		numCPUsNeeded:         ncpu,
-		requestCPUBind:        true,
-		requiredCPUBindPolicy: required,
-		cpuBindPolicy:         bind,
-		cpuExclusivePolicy:    excl,
-		topologyOptions:       w.tom.GetTopologyOptions(c06NodeName),
+	var opts *ResourceOptions
+	var reqs corev1.ResourceList
+	if cpuBind {
+		opts = &ResourceOptions{
+			numCPUsNeeded:         ncpu,
+			requestCPUBind:        true,
+			requiredCPUBindPolicy: required,
+			cpuBindPolicy:         bind,
+			cpuExclusivePolicy:    excl,
+			topologyOptions:       w.tom.GetTopologyOptions(w.name),
+		}
+		reqs = corev1.ResourceList{corev1.ResourceCPU: *resource.NewQuantity(int64(ncpu), resource.DecimalSI)}
+	} else {
+		ncpu, required = 0, false
+		opts = &ResourceOptions{cpuBindPolicy: bind, topologyOptions: w.tom.GetTopologyOptions(w.name)}
+		reqs = corev1.ResourceList{corev1.ResourceCPU: *resource.NewMilliQuantity(int64(kit.Pick(r, []int{1, 250, 500, 1000, 1500, 2500, 4000})), resource.DecimalSI)}
 	}
-	reqs := corev1.ResourceList{corev1.ResourceCPU: *resource.NewQuantity(int64(ncpu), resource.DecimalSI)}
 	if mem > 0 {
 		reqs[corev1.ResourceMemory] = *resource.NewQuantity(mem, resource.BinarySI)
+	}
+	if r.Pct(12) {
+		reqs[c06Hugepages] = *resource.NewQuantity(int64(r.Range(1, 10)), resource.BinarySI)
 	}
 	opts.requests = reqs.DeepCopy()
 	opts.originalRequests = reqs.DeepCopy()
 	var hintBits []int
-	if r.Pct(65) {
-		for n := 0; n < topo.NumNodes; n++ {
+	if r.Pct(65) || !cpuBind {
+		for _, n := range tp.nodeIDs {
 			if r.Pct(60) {
 				hintBits = append(hintBits, n)
 			}
 		}
 		if len(hintBits) == 0 {
-			hintBits = []int{r.Intn(topo.NumNodes)}
+			hintBits = []int{kit.Pick(r, tp.nodeIDs)}
 		}
 		m, _ := bitmask.NewBitMask(hintBits...)
 		opts.hint = topologymanager.NUMATopologyHint{NUMANodeAffinity: m}
 	}
 	pod := &corev1.Pod{ObjectMeta: metav1.ObjectMeta{UID: uid, Name: string(uid), Namespace: "default"}}
-	availBefore, _, _ := w.rm.GetAvailableCPUs(c06NodeName)
-	freeBefore, _, _ := w.rm.getAvailableNUMANodeResources(c06NodeName, opts.topologyOptions, nil)
+	availBefore, _, _ := w.rm.GetAvailableCPUs(w.name)
+	freeBefore, _, _ := w.rm.getAvailableNUMANodeResources(w.name, opts.topologyOptions, nil)
+	var liveAllocs []*PodAllocation
+	for _, u := range w.book.uids() {
+		liveAllocs = append(liveAllocs, w.book.allocs[u])
+	}
+	modelFree := c06ModelFree(w.nd.numaRes, liveAllocs)
 	alloc, status := w.rm.Allocate(w.node, pod, opts)
 	_, existing := w.book.allocs[uid]
-	c.Op("%s allocate %s cpus=%d mem=%d bind=%s required=%v excl=%s hint=%v (existing=%v) -> ok=%v %s", w.tag, uid, ncpu, mem, bind, required, excl, hintBits, existing, status.IsSuccess(), c06AllocStr(alloc))
+	c.Op("%s allocate %s cpuBind=%v cpus=%d reqs=%s bind=%s required=%v excl=%s hint=%v (existing=%v) -> ok=%v %s", w.tag, uid, cpuBind, ncpu, c06RL(reqs), bind, required, excl, hintBits, existing, status.IsSuccess(), c06AllocStr(alloc))
 	if !status.IsSuccess() {
 		c.Count("restart_allocate_refused", 1)
+		if !cpuBind && c06DivisibleEnough(reqs, modelFree, hintBits) {
+			c.Fail("C06/numa-split/incomplete", "Allocate of a pod without cpu binding refused (%s) although the hinted NUMA nodes %v have enough free of every requested resource: request %s, free %s", status.Message(), hintBits, c06RL(reqs), c06FreeStr(modelFree))
+		}
 		return false
 	}
 	c.Count("restart_allocate_ok", 1)
@@ -384,23 +371,30 @@ func (w *c06World) allocate(uid types.UID) bool {
 		c.Fail("C06/allocate/not-free", "Allocate returned %s, CPUs free for this pod were %s", alloc.CPUSet.String(), availBefore.String())
 	}
 	if required && bind == schedulingconfig.CPUBindPolicyFullPCPUs && !c06FullCores(topo, alloc.CPUSet) {
-		c.Fail("C06/allocate/fullpcpus-not-satisfied", "required FullPCPUs reported satisfied but %s does not consist of whole cores", alloc.CPUSet.String())
+		if tp.regular() {
+			c.Fail("C06/allocate/fullpcpus-not-satisfied", "required FullPCPUs reported satisfied but %s does not consist of whole cores", alloc.CPUSet.String())
+		}
+		c.Count("irregular_topology_policy_mismatch", 1)
 	}
 	if required && bind == schedulingconfig.CPUBindPolicySpreadByPCPUs && !c06OnePerCore(topo, alloc.CPUSet) {
-		c.Fail("C06/allocate/spread-not-satisfied", "required SpreadByPCPUs reported satisfied but %s has two CPUs of one core", alloc.CPUSet.String())
+		if tp.regular() {
+			c.Fail("C06/allocate/spread-not-satisfied", "required SpreadByPCPUs reported satisfied but %s has two CPUs of one core", alloc.CPUSet.String())
+		}
+		c.Count("irregular_topology_policy_mismatch", 1)
 	}
 	if opts.hint.NUMANodeAffinity != nil {
 		c06CheckSplit(c, "allocate", reqs, freeBefore, hintBits, alloc.NUMANodeResources)
+		c06CheckSplit(c, "allocate (free recomputed from the live pods)", reqs, modelFree, hintBits, alloc.NUMANodeResources)
 	}
 	w.book.allocs[uid] = c06CopyAlloc(alloc)
-	w.rm.Update(c06NodeName, alloc)
+	w.rm.Update(w.name, alloc)
 	return true
 }
 
 func (w *c06World) release(uid types.UID) {
 	_, live := w.book.allocs[uid]
 	w.c.Op("%s release %s (live=%v)", w.tag, uid, live)
-	w.rm.Release(c06NodeName, uid)
+	w.rm.Release(w.name, uid)
 	delete(w.book.allocs, uid)
 }
 
@@ -409,14 +403,14 @@ func (w *c06World) release(uid types.UID) {
 func (w *c06World) deliver(a *PodAllocation, note string) {
 	w.c.Op("%s deliver %s %s (%s)", w.tag, a.UID, c06AllocStr(a), note)
 	w.book.allocs[a.UID] = c06CopyAlloc(a)
-	w.rm.Update(c06NodeName, c06CopyAlloc(a))
+	w.rm.Update(w.name, c06CopyAlloc(a))
 }
 
 // ---------------------------------------------------------------------------------------------
 
 func TestVerifC06LedgerRestart(t *testing.T) {
-	kit.Run(t, kit.Config{Property: "C06", Unit: "ledger-restart", Quick: 500, Thorough: 15000,
-		Rule: "scheduler restart, sequential: a previous incarnation books 3-8 pods through the real Allocate+Update; a fresh resourceManager then receives a random part of them BEFORE the node's topology, interleaved with the things that touch the node meanwhile (Release of a delivered / never-seen pod, GetAllocatedCPUSet, GetAllocatedNUMAResource, GetNodeAllocation, free-amount lookups, re-delivery; 25%: the NodeResourceTopology first arrives without a valid CPU topology); then the topology arrives, the late pods are delivered and 10-40 allocate/release/echo operations follow; oracle from the topology's arrival on after every step; distinct = (topology, maxRef, #early, #touches by kind class, invalid-first, op, outcome); non-trivial = at least one pod was delivered before the topology and the node was touched between that delivery and the topology's arrival"},
+	kit.Run(t, kit.Config{Property: "C06", Unit: "ledger-restart", Quick: 450, Thorough: 15000,
+		Rule: "scheduler restart, sequential, node parameters as in the ledger unit (all topology dimensions, maxRefCount 1-4, reserved modes, cpu/memory/hugepages zones, cpuset and NUMA-amount-only requests): a previous incarnation books 3-8 pods through the real Allocate+Update; 30%: a second node on the same manager whose pods also arrive before its topology and must stay untouched; a fresh resourceManager then receives a random part of them BEFORE the node's topology, interleaved with the things that touch the node meanwhile (Release of a delivered / never-seen pod, GetAllocatedCPUSet, GetAllocatedNUMAResource, GetNodeAllocation, free-amount lookups, re-delivery; 25%: the NodeResourceTopology first arrives without a valid CPU topology); then the topology arrives, the late pods are delivered and 10-40 allocate/release/echo operations follow; oracle from the topology's arrival on after every step; distinct = (topology, maxRef, #early, #touches by kind class, invalid-first, op, outcome); non-trivial = at least one pod was delivered before the topology and the node was touched between that delivery and the topology's arrival"},
 		func(c *kit.Case) {
 			r := c.R
 			nd := c06GenNode(r)
@@ -424,6 +418,7 @@ func TestVerifC06LedgerRestart(t *testing.T) {
 				return
 			}
 			c.Op("%s", nd)
+			c06CountTopo(c, nd.tp)
 			// ---- previous incarnation
 			w0 := c06NewWorld(c, nd, "[before restart]")
 			w0.installTopology()
@@ -449,6 +444,25 @@ func TestVerifC06LedgerRestart(t *testing.T) {
 			w := c06NewWorld(c, nd, "[restarted]")
 			c.Op("---- restart: %d running pods", len(running))
 			kit.Shuffle(r, running)
+			// 30%: a second node of the cluster (same hardware) on the same manager; its pods reach the manager
+			// before its topology too, and nothing that happens to n0 may change what is booked on it
+			var bystander *c06World
+			bystanderTopoAt := 0
+			if r.Pct(30) {
+				bystander = c06NewWorldOn(c, nd, "[restarted, node n1]", "n1", w.rm, w.tom)
+				bystanderTopoAt = r.Intn(3) // 0 before n0's events, 1 after n0's topology, 2 at the end
+				for _, uid := range running[:r.Range(1, len(running))] {
+					a := c06CopyAlloc(w0.book.allocs[uid])
+					a.UID, a.Name = "n1-"+uid, "n1-"+string(uid)
+					bystander.deliver(a, "other node, before its topology")
+				}
+				if bystanderTopoAt == 0 {
+					bystander.installTopology()
+					c.Op("[restarted, node n1] topology arrives")
+					bystander.check("after its topology arrived")
+				}
+				c.Count("restart_rounds_with_second_node", 1)
+			}
 			nEarly := r.Range(1, len(running))
 			if r.Pct(15) {
 				nEarly = 0 // usual order: topology first
@@ -550,12 +564,21 @@ func TestVerifC06LedgerRestart(t *testing.T) {
 			w.installTopology()
 			c.Op("[restarted] topology arrives")
 			w.check("after the topology arrived")
+			if bystander != nil {
+				if bystanderTopoAt == 1 {
+					bystander.installTopology()
+					c.Op("[restarted, node n1] topology arrives")
+				}
+				if bystanderTopoAt <= 1 {
+					bystander.check("after n0's topology arrived")
+				}
+			}
 			kinds := make([]string, 0, len(touchKinds))
 			for k := range touchKinds {
 				kinds = append(kinds, k)
 			}
 			sort.Strings(kinds)
-			c.Seen("restart", nd.tp.String(), nd.maxRef, nEarly, kinds, invalidFirst)
+			c.Seen("restart", nd.tp.Class(), nd.maxRef, nEarly, kinds, invalidFirst, bystander != nil)
 			c.Count("restart_rounds", 1)
 			c.Count("restart_pods_before_topology", len(delivered))
 			if touchedAfterDelivery {
@@ -574,7 +597,7 @@ func TestVerifC06LedgerRestart(t *testing.T) {
 				switch k := r.Weighted(50, 35, 10, 5); k {
 				case 0:
 					ok := w.allocate(uid)
-					c.Seen("restart-op", nd.tp.String(), nd.maxRef, "alloc", ok, len(w.book.allocs))
+					c.Seen("restart-op", nd.tp.Class(), nd.maxRef, "alloc", ok, len(w.book.allocs))
 				case 1:
 					w.release(uid)
 				case 2:
@@ -586,6 +609,14 @@ func TestVerifC06LedgerRestart(t *testing.T) {
 					w.rm.Release(c06NodeName, types.UID("ghost"))
 				}
 				w.check(fmt.Sprintf("after op %d", i))
+				if bystander != nil && bystanderTopoAt <= 1 && i%4 == 3 {
+					bystander.check(fmt.Sprintf("after op %d on n0", i))
+				}
+			}
+			if bystander != nil && bystanderTopoAt == 2 {
+				bystander.installTopology()
+				c.Op("[restarted, node n1] topology arrives")
+				bystander.check("after its topology arrived")
 			}
 			for _, uid := range w.book.uids() {
 				w.release(uid)
@@ -594,6 +625,13 @@ func TestVerifC06LedgerRestart(t *testing.T) {
 			na := w.rm.GetNodeAllocation(c06NodeName)
 			if len(na.allocatedCPUs) != 0 || len(na.allocatedPods) != 0 {
 				c.Fail("C06/ledger/not-empty", "after releasing every pod the ledger still holds %d CPUs / %d pods", len(na.allocatedCPUs), len(na.allocatedPods))
+			}
+			if bystander != nil {
+				bystander.check("after everything on n0 was released")
+				for _, uid := range bystander.book.uids() {
+					bystander.release(uid)
+				}
+				bystander.check("after releasing everything")
 			}
 			if c.K < 2 {
 				ops := c.Ops()
